@@ -293,6 +293,30 @@ def run(tier, seed, rng):
         if probs:
             failures.append(Failure(what='; '.join(probs[:3])[:500], case=case, impl=probs[:8], model='Frame.step_env', oracle_rejects=True,
                                     correspondence=CORRESPONDENCES[0], theorems=THEOREMS, oracle='finite gradients in, finite gradients out (property text)'))
+    for k in range(2 if tier == 'quick' else 8):
+        torch.manual_seed(seed + 6500 + k)
+        method = rng.choice(['eigen', 'inverse'])
+        model = torch.nn.Sequential(torch.nn.Linear(4, 3), torch.nn.Tanh(), torch.nn.Linear(3, 2, bias=False)).to(torch.bfloat16)
+        case = {'kind': 'wide-gradients', 'method': method, 'seed': seed + 6500 + k}
+        probs = []
+        try:
+            p = KFACPreconditioner(model, compute_method=method, kl_clip=None)
+            model(torch.randn(8, 4).to(torch.bfloat16)).float().sum().backward()
+            for q in model.parameters():
+                g32 = q.grad.float() * 1.0009765625          # not representable in bfloat16
+                q.grad_dtype = None                           # torch's per-parameter switch: the gradient may differ from the parameter dtype
+                q.grad = g32
+            before = {n_: (q.grad.dtype, q.grad.shape) for n_, q in model.named_parameters()}
+            p.step()
+            for n_, q in model.named_parameters():
+                if (q.grad.dtype, q.grad.shape) != before[n_]:
+                    probs.append(f'gradient of {n_}: dtype/shape {before[n_]} before the step, {(q.grad.dtype, q.grad.shape)} after')
+        except Exception as e:  # noqa: BLE001
+            probs.append(f'raised {type(e).__name__}: {e}'[:300])
+        cov.add(case, True, sample_cap=1); cov.count('kind', 'wide-gradients')
+        if probs:
+            failures.append(Failure(what='; '.join(probs[:3])[:500], case=case, impl=probs[:8], model='Frame.step_env', oracle_rejects=True,
+                                    correspondence=CORRESPONDENCES[0], theorems=THEOREMS, oracle='a step keeps shape, dtype, device and contiguity of every registered gradient'))
     # ---- outputs / autograd gradients with and without K-FAC under one seed, stochastic layer after a registered conv, small and LARGE
     # feature maps (> 2**17 patches per pass) ----
     for k, (B, HW) in enumerate([(4, 16), (8, 144)] if tier == 'quick' else [(4, 16), (8, 144), (2, 300), (16, 96)]):
